@@ -95,7 +95,7 @@ theorem c09_chunk_byte_altered {rs : List Record} (h : AllWF rs) (r : Record)
   have hne : mutated r pre post y ++ rest ≠ [] := by
     intro hn
     have := congrArg List.length hn
-    have hp := encRecord_length_pos r
+    have hp := encRecord_length_posP r
     rw [List.length_append, hM] at this
     simp only [List.length_nil] at this
     omega
